@@ -33,12 +33,17 @@ NPAR = max(2, min(8, vp.NCPU // 2))
 FIXES = ["FixAsyncCb", "FixCbRpc", "FixCbEl", "FixKickoff", "FixDispatch", "FixPolicy", "FixResend", "FixRecover"]
 
 
+# FixKickoff (non-blocking first height in AddWaitForConfirmationTx) is a design variant that was not needed: once the
+# dispatcher reads observerLoopList under the watcher lock (FixDispatch) it can not reach a loop before its kick-off.
+NOT_ADOPTED = {"FixKickoff"}
+
+
 def fixes(old=False):
     """The Fix constants of Locks.tla. The specification transcribes the code WITH the six repairs (all TRUE).
     old=True: the code before the repairs (regression schedules). VERIF_LOCKS_UNFIXED=FixCbRpc,... (or `all`)
     makes the main model follow a tree in which some repairs are absent."""
     un = os.environ.get("VERIF_LOCKS_UNFIXED", "")
-    off = set(FIXES) if (old or un == "all") else {x.strip() for x in un.split(",") if x.strip()}
+    off = set(FIXES) if (old or un == "all") else ({x.strip() for x in un.split(",") if x.strip()} | NOT_ADOPTED)
     return {k: (k not in off) for k in FIXES}
 
 
